@@ -68,3 +68,23 @@ Definition pcm_call (sizer : weights -> res (list (string * Z)))
   | Err e => Err e
   | Ok target => Ok (mkPcm fw target (rebalance_orders target held))
   end.
+
+(** * Any optimiser.  As in [PortfolioConstructionModel.__call__], the optimiser is given the alpha weights ONLY; the zero
+    vector over universe + holdings is merged in afterwards.  (The equal-weight optimiser divides by the number of
+    weights it is given: an empty alpha dictionary is a ZeroDivisionError in the code and outside this model.) *)
+Inductive optimiser := OptFixed | OptEqual (scale : Q).
+Definition optimise (o : optimiser) (w : weights) : weights :=
+  match o with OptFixed => opt_fixed w | OptEqual s => opt_equal s w end.
+
+Definition pcm_call_opt (sizer : weights -> res (list (string * Z))) (o : optimiser)
+           (held : list (string * Z)) (univ : list string) (alpha_w : weights) : res pcm_out :=
+  match o, alpha_w with
+  | OptEqual _, [] => Err BadInput
+  | _, _ =>
+    let fa := full_assets (map fst held) univ in
+    let fw := merge_weights (map (fun a => (a, 0)) fa) (optimise o alpha_w) in
+    match sizer fw with
+    | Err e => Err e
+    | Ok target => Ok (mkPcm fw target (rebalance_orders target held))
+    end
+  end.
